@@ -376,7 +376,7 @@ func init() {
 		ID:        "C16",
 		Level:     "exploration",
 		NeedsTerm: true,
-		Rule: "15 history-recalled buffers (punctuation, quotes, URLs, multi-line, multi-byte, tabs, blanks) x every cursor position (enumerated over the case list) x 10 Emacs kill commands bound by name (kill-line, backward-kill-line, unix-line-discard, kill-word, backward-kill-word, unix-word-rubout, shell-kill-word, shell-backward-kill-word, kill-whole-line, kill-region after set-mark + motion) with numeric arguments (none, 2, 3, -, -2), blink-matching-paren on in one case in four, sequences of 2-3 kills separated by motions, and Vi x with counts followed by P; oracle: if the kill changed the buffer, the kill buffer R satisfies L1[:i] + R + L1[i:] == L for some i, an Emacs kill leaves the cursor at such an i, and an immediate yank there restores L exactly; after several kills yank inserts the most recent one; one Emacs case in three goes on after the yank with 1-3 commands that move or change the buffer without killing (case-word commands, transpose, insert, delete-char) and a second yank: the kill buffer must stay what the last kill took and the second yank must insert it. " +
+		Rule: "24 history-recalled buffers (six with a last word of multi-byte characters; punctuation, quotes, URLs, multi-line, multi-byte, tabs, blanks) x every cursor position (enumerated over the case list) x 10 Emacs kill commands bound by name (kill-line, backward-kill-line, unix-line-discard, kill-word, backward-kill-word, unix-word-rubout, shell-kill-word, shell-backward-kill-word, kill-whole-line, kill-region after set-mark + motion) with numeric arguments (none, 2, 3, -, -2), blink-matching-paren on in one case in four, sequences of 2-3 kills separated by motions, and Vi x with counts followed by P; oracle: if the kill changed the buffer, the kill buffer R satisfies L1[:i] + R + L1[i:] == L for some i, an Emacs kill leaves the cursor at such an i, and an immediate yank there restores L exactly; after several kills yank inserts the most recent one; one Emacs case in three goes on after the yank with 1-3 commands that move or change the buffer without killing (case-word commands, transpose, insert, delete-char) and a second yank: the kill buffer must stay what the last kill took and the second yank must insert it. " +
 			"distinct non-trivial = distinct (kill command, buffer class, cursor class, argument class) tuples",
 		Assumptions: []string{"Vi x on the last character moves the cursor left: P is then not at the same point and restoration is not demanded (as in vi)"},
 		N: func(tier string) int {
